@@ -146,7 +146,9 @@ func WaitQuiet(done <-chan struct{}, progress func() int64, max time.Duration) s
 			n++
 			if n >= 30 && time.Since(t0) >= 3*time.Second {
 				frac := float64(h.CPUTime()-c0) / float64(time.Since(t0))
-				if frac < 0.02 {
+				// low CPU time alone is also what a process looks like that is starved by
+				// other load; only when no goroutine is runnable is nothing waiting to run
+				if frac < 0.02 && noneRunnable() {
 					select {
 					case <-done:
 						return "done"
@@ -161,6 +163,37 @@ func WaitQuiet(done <-chan struct{}, progress func() int64, max time.Duration) s
 			return "watchdog"
 		}
 	}
+}
+
+// noneRunnable takes three goroutine dumps 20 ms apart and reports whether
+// none of them shows a goroutine that is runnable or running (other than the
+// one taking the dump): every goroutine is blocked on a channel, a lock, a
+// timer or in a system call, so nothing can move without an outside event.
+func noneRunnable() bool {
+	for k := 0; k < 3; k++ {
+		if k > 0 {
+			time.Sleep(20 * time.Millisecond)
+		}
+		st := h.Stacks()
+		first := true
+		for _, blk := range strings.Split(st, "\n\n") {
+			i := strings.Index(blk, "[")
+			j := strings.Index(blk, "]")
+			if !strings.HasPrefix(blk, "goroutine ") || i < 0 || j < i {
+				continue
+			}
+			state := blk[i+1 : j]
+			if first {
+				// the first block is the goroutine that takes the dump
+				first = false
+				continue
+			}
+			if strings.HasPrefix(state, "runnable") || strings.HasPrefix(state, "running") {
+				return false
+			}
+		}
+	}
+	return true
 }
 
 // ---------------------------------------------------------------- payloads
